@@ -1,10 +1,12 @@
 #!/bin/sh
-# tools/try_seed.sh <worktree-with-change-applied> <check-id>...   — run checks against a scratch checkout
-# (VERIF_REPO makes extract AND the harness build use that checkout instead of /repo)
+# tools/try_seed.sh <checkout-with-change-applied> <check-id>...   — run checks against a scratch checkout.
+# VERIF_REPO makes extract AND the harness build use that checkout instead of /repo.
+# Evidence and generated files are restored afterwards: committed evidence must come from runs against /repo.
 wt="$1"; shift
 for id in "$@"; do
   echo "=== $id against $wt"
-  VERIF_REPO="$wt" /verif/check "$id" quick 2>/dev/null | grep -E "^(VIOLATION|KNOWN-FINDING|C[0-9]+ )" | cut -c1-300
+  cp /verif/evidence/$id.json /tmp/evidence-backup-$id.json 2>/dev/null
+  VERIF_REPO="$wt" /verif/check "$id" quick 2>/dev/null | grep -E "^(VIOLATION|KNOWN-FINDING|C[0-9A-Z]+ )" | cut -c1-300
+  cp /tmp/evidence-backup-$id.json /verif/evidence/$id.json 2>/dev/null
 done
-# restore generated files for /repo
 /verif/bin/extract -repo /repo > /dev/null 2>&1
